@@ -462,7 +462,7 @@ pub fn cases(tier: Tier) -> Vec<Case> {
         loop {
             let row: Vec<f64> = idx.iter().map(|i| vals[*i]).collect();
             k += 1;
-            if n < 3 || tier == Tier::Thorough || k % 3 == 0 {
+            if n < 3 || tier == Tier::Thorough || k % 1 == 0 {
                 v.push(Case::Matrix { mat: vec![row], bias: vec![vals[k % vals.len()]] });
             }
             let mut j = 0;
